@@ -5,6 +5,7 @@ import OSProofs.Props.C01e
 import OSProofs.CodeShaped
 import OSProofs.Ladder
 import OSProofs.GenTie
+import OSProofs.Props.Loops
 #print axioms OS.C01_PL
 #print axioms OS.C01_BTF
 #print axioms OS.C01_BTP
@@ -57,3 +58,29 @@ import OSProofs.GenTie
 #print axioms OS.Gen.w_eq
 #print axioms OS.Gen.vt_eq
 #print axioms OS.Gen.wt_eq
+#print axioms OS.computeLoop_eq
+#print axioms OS.computeLoop_eq_exact
+#print axioms OS.computeLoop_eq_real
+#print axioms OS.computeLoopPL_eq
+#print axioms OS.computeLoopBTF_eq
+#print axioms OS.computeLoopBTP_eq
+#print axioms OS.computeLoopTMF_eq
+#print axioms OS.computeLoopTMP_eq
+#print axioms OS.rateCore_via_loops
+#print axioms OS.rateCore_via_loops_real
+#print axioms OS.plSumQCode_eq_of_zero
+#print axioms OS.computeLoopPLCodeOn_eq
+#print axioms OS.computeCode_some_eq
+#print axioms OS.computeCode_none_eq
+#print axioms OS.rateLoop_eq
+#print axioms OS.rateLoop_eq_real
+#print axioms OS.lp_teamRatingsLoop_eq
+#print axioms OS.lp_plCLoop_eq
+#print axioms OS.lp_rankOutputLoop_eq
+#print axioms OS.lp_rankingsLoopRanks_eq
+#print axioms OS.lp_rankingsLoopNone_eq
+#print axioms OS.lp_inflateLoop_eq
+#print axioms OS.lp_negateLoop_eq
+#print axioms OS.lp_copyLoop_eq
+#print axioms OS.lp_clampLoop_eq
+#print axioms OS.lp_loopPlayers_eq
